@@ -878,6 +878,11 @@ func main() {
 	run.Watch(90*time.Second, 3<<30, func(cur string) string { return "stall" })
 	hook := event.VerifSetYield(hookYield)
 	run.Notes["yield_hook_present"] = hook
+	if *raceChild {
+		runRaceChild(run, hook)
+		run.Finish()
+		return
+	}
 
 	rounds, budget := 6000, 45*time.Second
 	if run.Thorough() {
@@ -960,6 +965,9 @@ func main() {
 	}
 	curSched.Store(nil)
 	misuse(run)
+	if only < 0 {
+		raceSubRun(run)
+	}
 	run.Notes["rounds"] = executed
 	run.Notes["hangs"] = hangs
 	for p := 1; p < len(yieldCounts); p++ {
